@@ -3,6 +3,7 @@ package kvh
 import (
 	"github.com/XiXi-2024/xixi-kv/datafile"
 	"pgregory.net/rapid"
+	"sort"
 )
 
 // Small fixed key pool: short keys so that overwrites, deletes of live keys
@@ -143,12 +144,45 @@ func pickWeighted(t *rapid.T, w map[string]int, order []string) string {
 	return order[0]
 }
 
-var kindOrder = []string{"put", "del", "get", "batch", "sync", "merge", "reopen", "listkeys", "fold", "stat", "emptykey", "iter", "backup", "bigput", "tear"}
+var kindOrder = []string{"put", "del", "get", "batch", "sync", "merge", "reopen", "listkeys", "fold", "stat", "emptykey", "iter", "backup", "bigput", "tear", "wipe"}
 
 // GenOp draws the next concrete op of a history from the runner's state.
 func GenOp(t *rapid.T, r *Runner, pool *KeyPool, p *GenProfile) Op {
+	if len(r.Queued) > 0 {
+		op := r.Queued[0]
+		r.Queued = r.Queued[1:]
+		return op
+	}
 	kind := pickWeighted(t, p.Weights, kindOrder)
 	switch kind {
+	case "wipe":
+		// every live key is deleted one by one (the state in which a merge finds nothing to
+		// keep), usually followed by a merge and a restart
+		ks := make([]string, 0, len(r.Model))
+		for k := range r.Model {
+			ks = append(ks, k)
+		}
+		sort.Strings(ks)
+		for _, k := range ks {
+			r.Queued = append(r.Queued, Op{K: "del", Key: []byte(k)})
+		}
+		if p.Weights["merge"] > 0 && Pct(t, 70, "wipemerge") {
+			r.Queued = append(r.Queued, Op{K: "merge"})
+			if p.Weights["reopen"] > 0 && Pct(t, 60, "wipereopen") {
+				op := Op{K: "reopen"}
+				if !p.ReopenSame {
+					o := GenOpt(t, "reopen", p.OptProfile)
+					op.Opt = &o
+				}
+				r.Queued = append(r.Queued, op)
+			}
+		}
+		if len(r.Queued) == 0 {
+			return Op{K: "get", Key: pool.Draw(t, "key")}
+		}
+		op := r.Queued[0]
+		r.Queued = r.Queued[1:]
+		return op
 	case "put":
 		key := pool.Draw(t, "key")
 		return Op{K: "put", Key: key, VLen: ValueLen(t, r, len(key), 0, p.Big), VSeed: r.NextSeed()}
